@@ -146,6 +146,16 @@ pub fn curve_menu() -> Vec<ArrSpec> {
             inner: Box::new(ArrSpec::ExtCurve { dmin: vec![2, 5] }),
             j: 2,
         },
+        // a step-based prefix object (its steps_iter starts with the pseudo-step 0) and a
+        // superposition built with sum_of
+        ArrSpec::Prefix {
+            horizon: 8,
+            steps: vec![(1, 1), (3, 2), (7, 3)],
+        },
+        ArrSpec::SumOf(
+            Box::new(ArrSpec::Sporadic { t: 5, j: 3 }),
+            Box::new(ArrSpec::Sporadic { t: 7, j: 0 }),
+        ),
     ]
 }
 
